@@ -11,6 +11,7 @@ from . import common as C
 DISPATCH = {
     "C01": ("harness.ledger", "run"),
     "C03": ("harness.rounds", "run"),
+    "C13": ("harness.options", "run"),
     "C16": ("harness.rounds", "run"),
     "C04": ("harness.report", "run"),
     "C05": ("harness.herdsupply", "run"),
